@@ -188,6 +188,38 @@ theorem unpack_null_witness :
     errKind (unpackTail (KStr.ofSlice [0x61, 0xC3, 0xA9] 0 3) 1 true) = some "utf8" ∧
     nullCount (unpackHead (KStr.ofSlice [0x61, 0xC3, 0xA9] 0 3) 1) = 0 := by decide
 
+def isPanic : Res → Bool
+  | .panic _ => true
+  | _ => false
+
+/-- **repeat_overflow_witness** (F-C15-11): a result above `isize::MAX` bytes panics inside `str::repeat`
+(`capacity overflow`); with requests/C15-fix-9.diff applied it is a runtime error; the empty string can be
+repeated any number of times -/
+theorem repeat_overflow_witness :
+    isPanic (repeatOp (KStr.ofSlice [97, 98] 0 2) 9223372036854775807) = true ∧
+    errKind (repeatOp (KStr.ofSlice [97, 98] 0 2) 9223372036854775807 true) = some "toolarge" ∧
+    strBytes (repeatOp (KStr.ofSlice [] 0 0) 9223372036854775807) = some [] := by decide
+
+/-- `repeat` below the limit: exactly `n` copies, in every variant of the code -/
+theorem repeat_spec {s : KStr} (hw : s.WF) {n : Int} (hn : 0 ≤ n) (hsz : s.len * n.toNat ≤ isizeMax) (c : Bool) :
+    repeatOp s n c = .str (repeatB n.toNat s.bytes) := by
+  simp only [repeatOp]
+  rw [if_neg (by omega)]
+  split
+  · rename_i h0
+    have hb : s.bytes = [] := List.length_eq_zero_iff.mp (by rw [KStr.bytes_length hw]; exact h0)
+    simp [hb, repeatB, flat]
+  · rw [if_neg (by omega)]
+
+/-- **split_api_own_end_witness** (F-C15-12, Rust API level): `StringSlice::split` beyond the slice's own end
+succeeds and the first half reads the neighbouring text; with requests/C15-fix-10.diff applied it is refused -/
+theorem split_api_own_end_witness :
+    ((({ KStr.ofSlice [97, 98, 99, 100, 101, 102] 0 2 with form := .large } : KStr).splitAtApi 4).map
+      (fun pr => pr.1.bytes)) = some [97, 98, 99, 100] ∧
+    (({ KStr.ofSlice [97, 98, 99, 100, 101, 102] 0 2 with form := .large } : KStr).splitAtApi 4 true).isNone = true ∧
+    (({ KStr.ofSlice [97, 98, 99, 100, 101, 102] 0 2 with form := .large } : KStr).splitAtApi 1 true).isSome = true := by
+  decide
+
 /-! ## Well-formedness is preserved (`utf8_closed`) -/
 
 /-- cutting at character boundaries -/
@@ -666,6 +698,23 @@ theorem to_number_facts :
     numTag (toNumberBaseB [122, 122] 36) = (1, 1295) ∧                           -- "zz" base 36
     numTag (toNumberBaseB [49] 37) = (4, 0) := by decide
 
+/-- **zero_flag_sign_witness** (F-C15-14): the `0` flag puts the zeroes in front of the sign — `'{-5:03}'` is
+`0-5`, which is not a number any more; with requests/C15-fix-12.diff applied it is `-05`; an explicit `0>` fill
+is not the flag -/
+theorem zero_flag_sign_witness :
+    applyFmt gFirstChar (.int (-5)) (some { minWidth := some 3, fill := some [48] }) = [48, 45, 53] ∧
+    numTag (toNumberB [48, 45, 53]) = (2, 0) ∧
+    applyFmtSign gFirstChar (.int (-5)) (some { minWidth := some 3, fill := some [48] }) = [45, 48, 53] ∧
+    numTag (toNumberB [45, 48, 53]) = (1, -5) ∧
+    applyFmtSign gFirstChar (.int (-5)) (some { align := .right, minWidth := some 4, fill := some [48] })
+      = [48, 48, 45, 53] := by decide
+
+/-- **zero_flag_exact**: with the sign-aware `0` flag, `'{n:0w}'.to_number() = n` for every `i64`, every width
+and every segmentation oracle -/
+theorem zero_flag_exact (g : Bytes → Nat) {n : Int} (hlo : i64min ≤ n) (hhi : n ≤ i64max) (w : Nat) (c : Bool) :
+    toNumberB (applyFmtSign g (.int n) (some { minWidth := some w, fill := some [48] }) c) = .int n :=
+  toNumberB_zero_flag g hlo hhi w c
+
 /-! ## Escape codes -/
 
 def okBytes : Except String Bytes → Option Bytes
@@ -718,6 +767,17 @@ theorem escape_u_overflow_witness :
 theorem escape_u_overflow_fixed :
     errName (unescape UFacts.trivial [92, 117, 123, 49, 48, 48, 48, 48, 48, 48, 52, 49, 125] { overflow := true })
       = some "UnicodeEscapeCodeOutOfRange" := by decide
+
+/-- **escape_digit_count_witness** (F-C15-13): `\\u{}` is accepted as U+0000 and seven digits are accepted;
+with requests/C15-fix-11.diff applied one to six digits are required -/
+theorem escape_digit_count_witness :
+    okBytes (unescape UFacts.trivial [92, 117, 123, 125]) = some [0] ∧
+    errName (unescape UFacts.trivial [92, 117, 123, 125] { digits := true }) = some "UnexpectedCharInNumericEscapeCode" ∧
+    okBytes (unescape UFacts.trivial [92, 117, 123, 48, 48, 48, 48, 48, 52, 49, 125]) = some [0x41] ∧
+    errName (unescape UFacts.trivial [92, 117, 123, 48, 48, 48, 48, 48, 52, 49, 125] { digits := true })
+      = some "UnicodeEscapeCodeOutOfRange" ∧
+    okBytes (unescape UFacts.trivial [92, 117, 123, 48, 48, 48, 48, 52, 49, 125] { digits := true }) = some [0x41] := by
+  decide
 
 /-- `\\u{…}`: the encoding of every scalar value is well-formed UTF-8 -/
 theorem escape_encode_valid {cp : Nat} (h : isScalar cp = true) : validUtf8 (utf8Enc cp) = true :=
